@@ -5,6 +5,7 @@ UnderRepl), ControlPlaneTrace (binding V).  Harness: cmd/ctrl (real Conn + Alloc
 scripted zero group, watchdog + goroutine-dump signature) and the real-server restart scenarios of clusfam."""
 import itertools
 import json
+import re
 import subprocess
 from concurrent.futures import ThreadPoolExecutor
 
@@ -30,6 +31,22 @@ def scenarios(quick):
     # the TLC deadlock trace of ControlPlane (UnderRepl, entries <<conf, create>>): an under-replicated
     # partition exists, then a membership change and a create are applied back to back
     out.append({"name": "tlc-deadlock-underrepl", "steps": ["create:2", "settle", "burst", "conf+2", "create:1"]})
+    # long membership histories (what a node that has been up for a while has seen, and what a restart replays
+    # in one burst): every notification has to be consumed, however many there were before it
+    churn = []
+    for i in range(9 if quick else 30):
+        churn += ["conf+%d" % (2 + i % 4), "conf-%d" % (2 + i % 4)]
+    out.append({"name": "churn", "steps": ["create:1"] + churn + ["create:1", "delete"]})
+    out.append({"name": "churn-burst", "steps": ["create:1", "settle", "burst"] + churn + ["create:1", "delete"]})
+    out.append({"name": "churn-catalogue", "steps": sum([[c, "create:1"] if i % 5 == 0 else [c] for i, c in enumerate(churn)], []) + ["delete"]})
+    # entries proposed by other nodes: this node is dropped from / added to replica sets of partitions it
+    # does or does not host (it left and re-joined; partition leaders propose removals for every partition)
+    for steps in (["conf+2", "fcreate:2", "pnode-1", "pnode+1", "create:1", "delete"],
+                  ["conf+2", "fcreate:2", "pnode-1", "pnode-1", "pnode+1", "pnode-1", "pnode+1"],
+                  ["conf+2", "fcreate:1", "pnode-1", "pnode+1", "pnode+2", "pnode-2", "create:1"],
+                  ["conf+2", "conf+3", "fcreate:3", "conf-3", "pnode-3", "pnode+1", "pnode-1", "conf+3", "pnode+3"]):
+        out.append({"name": "foreign", "steps": steps})
+        out.append({"name": "foreign-burst", "steps": ["burst"] + steps})
     return out
 
 
@@ -37,26 +54,31 @@ def run(ctx):
     quick = ctx.tier == "quick"
     ctrl = ctx.go_build("cmd/ctrl", "ctrl")
     # ---- design: deadlock freedom per entry sequence and switch position
-    ok = [("E_create_only", "TRUE"), ("E_conf_only", "TRUE"), ("E_conf_create", "FALSE"), ("E_burst", "FALSE")]
+    ok = [("E_create_only", "TRUE", 10), ("E_conf_only", "TRUE", 10), ("E_conf_create", "TRUE", 10), ("E_burst", "TRUE", 10),
+          ("E_churn", "TRUE", 2), ("E_conf_create", "FALSE", 10), ("E_burst", "FALSE", 1)]
     d = ctx.specdir()
     base = open(d + "/ControlPlane_mc.cfg").read()
 
-    def tlc(ents, ur, under, name, count=True):
+    def tlc(ents, ur, under, name, count=True, inline="FALSE", cap=10):
         txt = base.replace("Entries <- E_conf_create", "Entries <- " + ents).replace("UnderRepl = TRUE", "UnderRepl = " + ur) \
-                  .replace("WatchSendUnderLock = FALSE", "WatchSendUnderLock = " + under)
+                  .replace("WatchSendUnderLock = FALSE", "WatchSendUnderLock = " + under) \
+                  .replace("InlineNodeChanges = FALSE", "InlineNodeChanges = " + inline).replace("NotifCap = 10", "NotifCap = %d" % cap)
         open(d + "/" + name + ".cfg", "w").write(txt)
         return ctx.tlc("ControlPlaneMC", name + ".cfg", timeout=300, name=name, count=count)
-    for ents, ur in ok:
-        r = tlc(ents, ur, "FALSE", "cp-" + ents)
+    for ents, ur, cap in ok:
+        r = tlc(ents, ur, "FALSE", "cp-%s-%s-%d" % (ents, ur, cap), cap=cap)
         if r.deadlock or r.violated:
-            raise vlib.NoVerdict("ControlPlane deadlocks for %s in the repaired position: specification bug" % ents)
+            raise vlib.NoVerdict("ControlPlane deadlocks for %s (proposals %s, capacity %d) in the repaired position: specification bug" % (ents, ur, cap))
     ctx.cov["exhaustive"] = True
-    r1 = tlc("E_conf_create", "FALSE", "TRUE", "cp-sendunderlock", count=False)
+    # vacuity guards: each shipped behaviour deadlocks the model
+    r1 = tlc("E_conf_create", "FALSE", "TRUE", "cp-sendunderlock", count=False, inline="TRUE")
     ctx.cov["binding_selftest"]["switch_WatchSendUnderLock_TRUE_gives_deadlock"] = r1.deadlock
-    r2 = tlc("E_conf_create", "TRUE", "FALSE", "cp-underrepl", count=False)
-    ctx.cov["model_deadlock_remaining_under_replicated"] = r2.deadlock
-    if not r1.deadlock:
-        raise vlib.NoVerdict("vacuity guard failed: send under lock does not deadlock the model")
+    r2 = tlc("E_conf_create", "TRUE", "FALSE", "cp-inline-lock", count=False, inline="TRUE")
+    ctx.cov["binding_selftest"]["switch_InlineNodeChanges_TRUE_conf_create_gives_deadlock"] = r2.deadlock
+    r3 = tlc("E_churn", "TRUE", "FALSE", "cp-inline-notif", count=False, inline="TRUE", cap=2)
+    ctx.cov["binding_selftest"]["switch_InlineNodeChanges_TRUE_churn_gives_deadlock"] = r3.deadlock
+    if not (r1.deadlock and r2.deadlock and r3.deadlock):
+        raise vlib.NoVerdict("vacuity guard failed: a shipped behaviour does not deadlock the model (%s %s %s)" % (r1.deadlock, r2.deadlock, r3.deadlock))
     # ---- the real control plane under the same entry sequences
     scs = scenarios(quick)
 
@@ -64,7 +86,15 @@ def run(ctx):
         i, sc = a
         tr = ctx.path("ctrl-%d.ndjson" % i)
         try:
-            subprocess.run([ctrl, tr, json.dumps(sc)], stdout=subprocess.PIPE, stderr=subprocess.PIPE, timeout=90, env=vlib.goenv())
+            p = subprocess.run([ctrl, tr, json.dumps(sc)], stdout=subprocess.PIPE, stderr=subprocess.PIPE, timeout=90, env=vlib.goenv())
+            err = p.stderr.decode(errors="replace")
+            if p.returncode != 0 and "\npanic:" in "\n" + err:
+                # the control plane's own code panicked (no recover in the allocator / apply goroutines): the node is gone
+                frames = re.findall(r"github.com/marekgalovic/anndb/(?:storage|cluster|storage/raft)\.\(\*?(\w+)\)\.(\w+)", err.split("goroutine ", 2)[1] if "goroutine " in err else err)
+                top = "<".join("%s.%s" % f for f in frames[:3]) or "outside anndb"
+                if frames:
+                    return json.dumps({"ev": "ctrl", "name": sc["name"], "steps": sc["steps"], "entries": len(sc["steps"]), "applied": 0, "pending": 1,
+                                       "stalled": 1, "signature": "crash@" + top, "serving": 0})
         except subprocess.TimeoutExpired:
             return json.dumps({"ev": "ctrl", "name": sc["name"], "steps": sc["steps"], "entries": 0, "applied": 0, "pending": 1,
                                "stalled": 1, "signature": "harness timeout", "serving": 0})
